@@ -154,7 +154,7 @@ func VerifC02QuoteLaw() {
 	}
 }
 
-var vKeys = []string{"A", "B", "AB"}
+var vKeys = []string{"A", "B", "AB", "AR"} // AR: a name ending in a letter of the "@R" operator
 
 func vRefQuoteMeta(v string) string {
 	var out []byte
@@ -176,7 +176,7 @@ func VerifC02Expand() {
 	h := rt.IntRange(0, rt.Param("H", 2))
 	last := map[string]string{}
 	for i := 0; i < h; i++ {
-		k := vKeys[rt.IntRange(0, 2)]
+		k := vKeys[rt.IntRange(0, len(vKeys)-1)]
 		v := rt.String(rt.IntRange(0, rt.Param("VL", 2)))
 		for j := 0; j < len(v); j++ {
 			rt.Assume(v[j] != '\n')
@@ -190,7 +190,7 @@ func VerifC02Expand() {
 		}
 		last[k] = v
 	}
-	k := vKeys[rt.IntRange(0, 2)]
+	k := vKeys[rt.IntRange(0, len(vKeys)-1)]
 	val := last[k] // "" when unset
 	form := rt.IntRange(0, 5)
 	var line, want string
